@@ -36,7 +36,7 @@ Swap(r) == /\ rl[r].pc = "parsed"
               THEN /\ rl' = [rl EXCEPT ![r].pc = "idle"] /\ UNCHANGED <<mem, memv, loaded>>      \* parse error: previous contents stay
               ELSE IF ~InPlace
               THEN /\ mem' = Versions[rl[r].v].content /\ memv' = rl[r].v
-                   /\ loaded' = IF rl[r].v > loaded THEN rl[r].v ELSE loaded
+                   /\ loaded' = (IF rl[r].v > loaded THEN rl[r].v ELSE loaded)
                    /\ rl' = [rl EXCEPT ![r].pc = "idle"]
               ELSE \* deviation: remove / add entry by entry
                    /\ rl' = [rl EXCEPT ![r] = [pc |-> "mutating", v |-> rl[r].v, todo |-> (mem \ Versions[rl[r].v].content) \cup (Versions[rl[r].v].content \ mem)]]
@@ -45,7 +45,7 @@ Swap(r) == /\ rl[r].pc = "parsed"
 Mutate(r) == /\ rl[r].pc = "mutating"
              /\ IF rl[r].todo = {}
                 THEN /\ rl' = [rl EXCEPT ![r].pc = "idle"] /\ memv' = rl[r].v
-                     /\ loaded' = IF rl[r].v > loaded THEN rl[r].v ELSE loaded /\ UNCHANGED mem
+                     /\ loaded' = (IF rl[r].v > loaded THEN rl[r].v ELSE loaded) /\ UNCHANGED mem
                 ELSE \E e \in rl[r].todo :
                      /\ mem' = IF e \in mem THEN mem \ {e} ELSE mem \cup {e}
                      /\ rl' = [rl EXCEPT ![r].todo = @ \ {e}] /\ UNCHANGED <<memv, loaded>>
